@@ -27,7 +27,7 @@ func engineWire(rep *Report) {
 			if only >= 0 && i != only {
 				continue
 			}
-			wireCase(rep, s, d, i)
+			guardCase(rep, "C03", "wire", string(s.FullName), i, func() { wireCase(rep, s, d, i) })
 		}
 	}
 }
